@@ -92,6 +92,10 @@ func (s sym) packet() *types.Packet {
 		st.Mode, st.Linkname = uint32(os.ModeDir|os.ModeSymlink|0777), "/outside/d"
 	case s.Kind == "fifo":
 		st.Mode = uint32(os.ModeNamedPipe | 0666)
+	case strings.HasPrefix(s.Kind, "dirmimic:"):
+		// a directory entry that copies every other field of the symlink the prior destinations hold at this path
+		st.Linkname = s.Kind[len("dirmimic:"):]
+		st.Mode, st.Size, st.ModTime, st.Uid, st.Gid = uint32(os.ModeDir|0777), int64(len(st.Linkname)), fsmodel.T0, 0, 0
 	case s.Kind == "suid":
 		st.Mode = uint32(os.ModeSetuid | 0755)
 		st.Size = 12
@@ -113,6 +117,7 @@ func c03Alphabet(tier string) []sym {
 			out = append(out, sym{T: "stat", Path: p, Kind: k})
 		}
 	}
+	out = append(out, sym{T: "stat", Path: "a", Kind: "dirmimic:/outside/d"}, sym{T: "stat", Path: "b", Kind: "dirmimic:" + relOutD}, sym{T: "stat", Path: "a", Kind: "dirmimic:b"})
 	// names of the shape the receiver itself uses for temporary entries
 	for _, p := range []string{".tmp.1", ".tmp.0"} {
 		out = append(out, sym{T: "stat", Path: p, Kind: "symx"}, sym{T: "stat", Path: p, Kind: "symabs"})
